@@ -291,7 +291,7 @@ fn igs_line(rng: &mut Rng) -> (Piece, usize) {
 /// IGS commands that set drawing state (attributes, line and marker types, hollow, mode, effects, colours,
 /// resolution, scaling, cursor) and the drawing commands that read it.
 const IGS_STATE_CMDS: &[u8] = b"ATHMECSRPgk";
-const IGS_PROBE: &[u8] = b"L>0,0,50,50:D>80,20:B>10,10,60,40,0:U>20,20,70,50,1:O>100,100,30:Q>100,100,40,20:J>100,100,30,20,0,90:K>100,100,30,0,90:V>100,100,30,0,90:Y>100,100,30,20,0,90:z>3,10,10,50,20,90,30:f>3,10,10,50,20,90,30:P>50,50:Z>5,5,30,30:F>60,60:f>0:z>0:f>1,5,5:W>10,10,Hi@";
+const IGS_PROBE: &[u8] = b"L>0,0,50,50:D>80,20:B>10,10,60,40,0:U>20,20,70,50,1:O>100,100,30:Q>100,100,40,20:J>100,100,30,20,0,90:K>100,100,30,0,90:V>100,100,30,0,90:Y>100,100,30,20,0,90:z>3,10,10,50,20,90,30:f>3,10,10,50,20,90,30:P>50,50:Z>5,5,30,30:F>60,60:f>0:z>0:f>1,5,5:f>3,10,10,50,20,90,30,7:z>3,10,10,50,20,90,30,7:f>2,10,10,50,20,90:f>3,10,10,50:W>10,10,Hi@";
 /// per state command: arity 1 with 9 first values, arities 2..=6 with 9 x 13 (first, second) values
 const SELECTOR_PER_CMD: u64 = 9 + 5 * 9 * 13;
 
@@ -303,7 +303,7 @@ pub fn selector_total() -> u64 {
 const RIP_STATE_CMDS: [(u8, usize); 9] = [(b'=', 8), (b'S', 4), (b'W', 2), (b'Y', 8), (b'c', 2), (b'v', 8), (b'w', 10), (b'a', 4), (b's', 18)];
 /// one of each drawing command (level 0), read under the state set before
 const RIP_PROBE: &[&str] = &[
-    "L00001010", "R05051E14", "B05051E14", "C1E1E0A", "O1E1E005A140A", "o1E1E140A", "A1E1E005A0A", "V1E1E005A140A", "I1E1E005A0A", "i1E1E005A140A",
+    "S010C", "F5K5K0F", "L00001010", "R05051E14", "B05051E14", "C1E1E0A", "O1E1E005A140A", "o1E1E140A", "A1E1E005A0A", "V1E1E005A140A", "I1E1E005A0A", "i1E1E005A140A",
     "Z00001010202030300A", "P03000010101E05", "p03000010101E05", "l03000010101E05", "F0A0A0F", "X0A0A", "m0505", "THello", "@0A0AHi", "P00", "p00", "l00", "p010505",
 ];
 const RIP_SELECT_VALUES: u64 = 17;
@@ -325,8 +325,15 @@ fn b36_2(v: u64) -> [u8; 2] {
     [D[(v / 36 % 36) as usize], D[(v % 36) as usize]]
 }
 
+/// Far corner of the RIP view port (`v`) and text window (`w`): on, at and beyond the canvas edges (640 x 350).
+const RIP_FAR: [u64; 11] = [0, 1, 10, 349, 350, 351, 479, 480, 639, 640, 1295];
+
+pub fn rip_corner_total() -> u64 {
+    2 * (RIP_FAR.len() * RIP_FAR.len()) as u64
+}
+
 pub fn exhaustive_total() -> u64 {
-    ((RIP_L0.len() + RIP_L1.len() + 1) * 25 * 4) as u64 + (IGS_CMDS.len() * 13 * 3) as u64 + selector_total() + rip_selector_total()
+    ((RIP_L0.len() + RIP_L1.len() + 1) * 25 * 4) as u64 + (IGS_CMDS.len() * 13 * 3) as u64 + selector_total() + rip_selector_total() + rip_corner_total()
 }
 
 /// Systematic part: every command with every parameter-list length over the digits {0, 1, Z}.
@@ -351,6 +358,30 @@ fn systematic(rng: &mut Rng, idx: u64, t: &mut Trace) {
         }
         v.extend(b"|\n");
         t.labels.push(format!("cmd=rip:{}:{len}", String::from_utf8_lossy(&v[2..4.min(v.len())]).replace('\x1b', "ESC")));
+        t.rx(&v);
+        t.events.push(Ev::Picture);
+    } else if idx - rip_n >= (IGS_CMDS.len() * 13 * 3) as u64 + selector_total() + rip_selector_total() {
+        // RIP far-corner sweep: a view port or text window from the origin to every combination of far corners,
+        // then one of each drawing command (an unbounded flood fill first)
+        let r = idx - rip_n - (IGS_CMDS.len() * 13 * 3) as u64 - selector_total() - rip_selector_total();
+        t.cfg.emu = "rip".into();
+        let n = RIP_FAR.len() as u64;
+        let cmd = if r / (n * n) == 0 { b'v' } else { b'w' };
+        let (x1, y1) = (RIP_FAR[(r % n) as usize], RIP_FAR[(r / n % n) as usize]);
+        let mut v = b"!|".to_vec();
+        v.push(cmd);
+        v.extend(b"0000");
+        v.extend(b36_2(x1));
+        v.extend(b36_2(y1));
+        if cmd == b'w' {
+            v.extend(b"10");
+        }
+        for p in RIP_PROBE {
+            v.push(b'|');
+            v.extend(p.bytes());
+        }
+        v.extend(b"|\n");
+        t.labels.push(format!("cmd=rip:corner:{}", cmd as char));
         t.rx(&v);
         t.events.push(Ev::Picture);
     } else if idx - rip_n >= (IGS_CMDS.len() * 13 * 3) as u64 + selector_total() {
